@@ -372,8 +372,12 @@ def add_real(cb, k):
     elif t == "call":
         cb.assign(tuple(p.Variable(x) for x in k[1]), lang.to_pym(["call", k[2], k[3], k[4]]))
     elif t == "implicit":
-        cb.assign_implicit(tuple(k[1]), tuple(k[2]), tuple(lang.to_pym(e) for e in k[3]),
-                           {n: lang.to_pym(e) for n, e in k[4]}, k[5])
+        if len(k[1]) == 1 and len(k[2]) == 1 and [n for n, _ in k[4]] == ["guess"]:
+            cb.assign_implicit_1(p.Variable(k[1][0]), p.Variable(k[2][0]), lang.to_pym(k[3][0]),
+                                 lang.to_pym(k[4][0][1]), k[5])         # the one-unknown convenience form
+        else:
+            cb.assign_implicit(tuple(k[1]), tuple(k[2]), tuple(lang.to_pym(e) for e in k[3]),
+                               {n: lang.to_pym(e) for n, e in k[4]}, k[5])
     elif t == "yield":
         cb.yield_state(lang.to_pym(k[4]), k[1], lang.to_pym(k[3]), k[2])
     elif t == "fail":
